@@ -1,4 +1,4 @@
-(* C18 -- Case-insensitive strings obey equality, hash and order laws (model/Str.v, 7-bit text). *)
+(* C18 -- Case-insensitive strings obey equality, hash and order laws (model/Str.v, Latin-1 text). *)
 From PS Require Import Base Str C18_proof.
 
 Theorem C18_eq : forall a b, ic_eqb a b = true <-> lower a = lower b.
